@@ -37,6 +37,14 @@ CHECKS = {
          "deterministic simulation with fault injection: worker death at every point of sampled histories, late teardown, replacement through the real WorkerFaulted path",
          "Workers killed (future dropped, or panic inside a service call) at random points and swept over every position of sampled histories; their outstanding connections complete arbitrarily late (stale availability notifications); the replacement is started by the real ServerInner::handle_cmd. Oracles: the accept loop never panics or spins, no connection is dropped while a handle remains, a failed send removes the handle at once, every discovered fault is answered by a replacement with the same index that rejoins the rotation and serves, fresh clients are served at the end.",
          "Worker death is modelled as the ServerWorker future being dropped (as when its thread unwinds); at most two kills per run.", "§4.4 C08"),
+ "C09": ("rtsim", "exploration",
+         "deterministic simulation: real actix-rt threads under a baton scheduler with seeded choice of who runs next",
+         "Seeded programs of arbiter life-cycle operations, spawns and system stops executed on real OS threads (real System, SystemController, Arbiter, tokio runtimes, thread-locals) with exactly one registered thread running at a time; every scheduling decision (runtime ticks, arbiter creation/registration/ready/deregistration points, every iteration of the arbiter and controller loops) is drawn from the seed and recorded. Oracle: run_with_code returns the code of the first stop in global issue order, and every arbiter whose creation had returned before that stop ends its loop and joins. A fair round-robin phase precedes any liveness verdict. Sampling, not proof.",
+         "Interleaving granularity is runtime tick + hook points (no preemption inside tokio internals); the only randomised container in actix-rt (the controller's HashMap) is not owned by the simulator: if a change makes behaviour depend on its order, the violation is reported as unstable (best-effort replay).", "§5"),
+ "C10": ("rtsim", "exploration",
+         "deterministic simulation: same baton scheduler; per-arbiter command log vs queue model",
+         "Every task sent to an arbiter (fn / future / pending / panicking / self-stopping / cross-spawning, through the owner, a cloned handle or Arbiter::current()) logs its first poll; checked: first-poll order equals send order per arbiter, at most one start, the arbiter's own thread, System::current()/Arbiter::current() identity, nothing sent after an explicit stop() starts, spawn/stop report false after join() returned, join() does not return before the thread ended, block_on returns its future's value, a panicking task does not end the arbiter. Sampling, not proof.",
+         "At-most-once (commands behind a Stop may legitimately never start). Joins run on a helper thread without the baton and become schedulable when the joined thread has ended.", "§5"),
  "C11": ("svcsim", "exploration",
          "deterministic simulation: random combinator trees over scripted leaves under a strict-wake executor vs a tree interpreter",
          "Random combinator expression trees (depth <= 3, service and factory forms, type-erased with the crate's own boxed wrappers, plus fixed un-erased nestings) over scripted leaf services/factories whose futures advance only by simulator actions; the result value with its trace, the exact sequence of inner calls, one build per inner factory with the supplied config and the first init error are compared with a small tree interpreter (poll-level reference model for factory futures). Sampling, not proof.",
@@ -65,6 +73,8 @@ CHECKS = {
 ENGINES = [
  {"name": "srvsim", "path": "sim/srvsim", "serves_properties": ["C01", "C02", "C03", "C04", "C05", "C06", "C07", "C08"],
   "kind_free_text": "whole actix-server (real builder, Server future, accept loop, workers, sockets, epoll) stepped on one thread under a seeded scheduler with a paused tokio clock"},
+ {"name": "rtsim", "path": "sim/rtsim", "serves_properties": ["C09", "C10"],
+  "kind_free_text": "real actix-rt on real OS threads under a baton scheduler (one thread runs at a time; seeded choice at every yield point)"},
  {"name": "svcsim", "path": "sim/pollsim/src/svcsim.rs", "serves_properties": ["C11", "C12"],
   "kind_free_text": "strict-wake poll-level simulator for actix-service combinator trees with a tree interpreter as reference"},
  {"name": "iosim", "path": "sim/pollsim/src/iosim.rs", "serves_properties": ["C13", "C14"],
